@@ -66,8 +66,18 @@ def run(ctx):
         KB[0:64] = Bits(Kb, 64); KT2 = [wb.table_rKT(r, KB)[1] for r in range(16)]
         cur += probe(network(KT1), Ka, few[:3], 'key object edited in place') + probe(network(KT2), Kb, few, 'key object edited in place')
         # (3) one network object used for many distinct blocks, then asked again for the first ones
+        # (2') the key-independent tables generated ONCE and handed to several networks (a constructor must leave its arguments alone)
+        M1s, M2s, M3s = wb.table_M1(), wb.table_M2()[0], wb.table_M3(); snap0 = (list(M1s), list(M2s), list(M3s))
+        nets = [(k, wb.WhiteDES(KTs[k], M1s, M2s, M3s)) for k in (Ka, Kb, Kc, Ka)]
+        for k, wtk in nets: cur += probe(wtk, k, few[:3], 'shared key-independent tables')
+        if (list(M1s), list(M2s), list(M3s)) != snap0: cur.append(dict(op='wb_tables', key=B(Ka), raised='ArgumentTablesChangedByConstructor', shape={}, indep={}))
         wt = network(KT1); first = [rb(8) for _ in range(3)]
         cur += probe(wt, Ka, first, 'long-lived network')
+        for bad in (b'x' * 7, b'x' * 9, b'x' * 7):                       # refused calls (dec is not implemented / wrong block size) leave nothing behind
+            for op in ('dec', 'enc'):
+                try: getattr(wt, op)(bad)
+                except Exception: pass
+        cur += probe(wt, Ka, first[:2], 'after refused calls')
         for i in range(600 if big else 530): wt.enc(((i * 0x9E3779B97F4A7C15 + 1) & ((1 << 64) - 1)).to_bytes(8, 'big'))
         cur += probe(wt, Ka, first + [rb(8)], 'long-lived network')
     except Exception as ex:
